@@ -229,9 +229,76 @@ func (g *genState) step() {
 	}
 }
 
+// peerReply submits what a protocol-conformant peer, whose chain shares ours up to a seeded
+// height and then continues on its own, would send first in reply to our current locator.
+func (g *genState) peerReply() {
+	in := g.e.Insts[len(g.e.Insts)-1]
+	m := in.M
+	mx := locatorMaxes[g.rng.Intn(len(locatorMaxes))]
+	loc := in.Snap.Locators[mx]
+	if len(loc) == 0 || m.Tip.Height == 0 {
+		return
+	}
+	chain := Chain(m.Tip)
+	f := g.rng.Intn(m.Tip.Height + 1) // the peer shares heights 0..f with us
+	if g.rng.Intn(3) == 0 {
+		f = m.Tip.Height // same chain (or ahead of us)
+	}
+	match := -1
+	for _, h := range loc {
+		for ht := 0; ht <= f; ht++ {
+			if chain[ht].Hash == h {
+				match = ht
+			}
+		}
+		if match != -1 {
+			break
+		}
+	}
+	if match == -1 {
+		g.e.Stats["peer_reply_no_common_locator_hash"]++
+		return
+	}
+	var hd *wire.BlockHeader
+	note := ""
+	if match < f || match < m.Tip.Height && f == m.Tip.Height {
+		hd = chain[match+1].Header
+		note = "peer-reply-shared-header"
+	} else if match == m.Tip.Height {
+		hd = g.mkHeader(m.Tip, 0x1d00ffff)
+		note = "peer-reply-extends-tip"
+	} else {
+		hd = g.mkHeader(chain[match], bitsChoices[g.rng.Intn(len(bitsChoices))])
+		note = "peer-reply-own-fork"
+	}
+	if match+1 <= m.Tip.Height && f == m.Tip.Height && match != m.Tip.Height-1 {
+		// a peer with our whole chain must be asked from our tip's parent
+		g.e.fail("C19", "same-chain-peer-replies-with-our-tip", "same-chain-reply-does-not-start-at-tip",
+			fmt.Sprintf("locator(%d) first best-chain match at height %d, tip %d", mx, match, m.Tip.Height))
+	}
+	before := len(g.e.Trace.Ops)
+	g.submit(hd, note)
+	_ = before
+	nin := g.e.Insts[len(g.e.Insts)-1]
+	// the reply must connect to a header we hold
+	if l, ok := nin.Snap.Looks[*hd.BlockHash()]; g.e.on("C19") && !nin.M.MaybePruned[hd.PrevBlock] {
+		if g.e.lastClass == "unknown" {
+			g.e.fail("C19", "reply-connects-to-a-header-we-hold", "peer-reply-unknown-parent/"+note,
+				fmt.Sprintf("locator(%d): a peer sharing our chain up to height %d replies with a header that was refused as unknown parent", mx, f))
+		}
+		_ = l
+		_ = ok
+	}
+	g.e.Stats[note]++
+}
+
 func (g *genState) genSubmit() {
 	m := g.model()
 	bits := bitsChoices[g.rng.Intn(len(bitsChoices))]
+	if g.gc.PeerReply && g.rng.Intn(6) == 0 {
+		g.peerReply()
+		return
+	}
 	k := g.rng.Intn(100)
 	switch {
 	case k < 45: // race the lanes
